@@ -48,7 +48,7 @@ LevelPols ==
           WithId(WhenP(2, And_(EChains[i][2], B_("in", EChains[i][1], <<"lit", TG2>>))), "p2", "permit")>> : i \in 1..Len(EChains)}
   \cup {<<WithId(WhenP(2, Ctx(1, Chains[i])), "p1", "permit"), WithId(WhenP(2, ECtx(k, EChains[j])), "p2", "forbid")>>
         : i \in 1..Len(Chains), k \in {1, 3, 6}, j \in 1..Len(EChains)}
-AllSets == LevelPols \cup PolSets
+AllSets == IF "RANDPOLS" \in DOMAIN IOEnv THEN PolSets ELSE LevelPols \cup PolSets
 
 EnvChoices == { <<TRUE, "u2", TRUE, TRUE, "g", TRUE, "u1", 3, "u1">>, <<FALSE, "none", FALSE, FALSE, "no", FALSE, "u2", 2, "u1">>,
                 <<TRUE, "u3", FALSE, TRUE, "no", FALSE, "u1", 5, "u1">>, <<FALSE, "u2", TRUE, FALSE, "g", TRUE, "u2", 1, "u2">>,
@@ -59,7 +59,7 @@ EnvChoices == { <<TRUE, "u2", TRUE, TRUE, "g", TRUE, "u1", 3, "u1">>, <<FALSE, "
 Levels == 0..4
 
 Coords == 1..8
-CasesOf(k) == {[pols |-> ps] : ps \in {x \in AllSets : (Len(x) + Len(x[1].conds[1][2])) % 8 = k - 1}}
+CasesOf(k) == {[pols |-> ps] : ps \in {x \in AllSets : SetHash(x) % 8 = k - 1}}
 Init == coord \in Coords /\ c = <<>>
 Next == c = <<>> /\ c' \in CasesOf(coord) /\ UNCHANGED coord
 
